@@ -375,6 +375,13 @@ class OrderedMultiDict(dict, MutableMappingSequence):
 
         kvlist = _insert_arg_helper(args)
 
+        # Normalize the index the way list.insert() does, once, so that
+        # incrementing it for each pair keeps the pairs together.
+        if index < 0:
+            index = max(0, len(self.__items) + index)
+        elif index > len(self.__items):
+            index = len(self.__items)
+
         for (key, value) in kvlist:
             self.__items.insert(index, (key, value))
             index += 1
